@@ -317,3 +317,54 @@ def rand_asgs(rng, vars_, n):
                 a.append([nm, bits(v, w)])
         out.append(a)
     return out
+
+
+# ----------------------------------------------------------------------------------------------
+# C04: boundary constructions (extreme shift amounts, odd widths, mixed If operands, non-byte Reverse)
+# ----------------------------------------------------------------------------------------------
+
+def boundary_terms(rng: random.Random, n):
+    out = []
+    widths = [1, 7, 8, 9, 16, 63, 64, 65, 128]
+    for W in widths:
+        x, y = BVS("x", W), BVS("y", W)
+        c = BoolS("c")
+        m = (1 << W) - 1
+        big = sorted({v & m for v in (m, m - 1, 1 << (W - 1), (1 << (W - 1)) - 1, W - 1, W, W + 1, 2 * W, 1 << min(W - 1, 62),
+                                      (1 << min(W, 64)) - 1, 0, 1, 2)})
+        consts = [BVV(v, W) for v in big]
+        for op in ("__lshift__", "__rshift__", "LShR", "RotateLeft", "RotateRight"):
+            for k in consts:
+                for a in (x, BVV(1, W), BVV(m, W), BVV(1 << (W - 1), W)):
+                    out.append(T(op, a, k))
+                    out.append(T(op, T(op, a, k), k))
+        for op in BIN:
+            for k in consts[:6] + consts[-3:]:
+                out.append(T(op, BVV(m, W), k))
+                out.append(T(op, k, BVV(1 << (W - 1), W)))
+                out.append(T(op, x, k))
+        mixed = [T("If", c, BVV(1, W), T("__add__", x, y)), T("If", c, T("__add__", x, y), BVV(0, W)),
+                 T("If", c, BVV(1, W), BVV(0, W)), T("If", c, x, BVV(m, W)), T("If", T("Not", c), BVV(0, W), y)]
+        for t in mixed:
+            for op in UN:
+                out.append(T(op, t))
+            for op in BIN + CMP:
+                out.append(T(op, t, BVV(1, W)))
+                out.append(T(op, BVV(m, W), t))
+                out.append(T(op, t, t))
+            out.append(T("Extract", t, ints=(W - 1, W // 2)))
+            out.append(T("ZeroExt", t, ints=(W,)))
+            out.append(T("SignExt", t, ints=(1,)))
+            out.append(T("Concat", t, t))
+            out.append(T("Reverse", t))
+        out.append(T("Reverse", x))
+        out.append(T("Reverse", BVV(m >> 1, W)))
+        out.append(T("Reverse", T("Concat", x, BVV(0, 1))))
+        out.append(T("Extract", T("Reverse", T("Concat", x, y)), ints=(W - 1, 0)))
+        for cmp in CMP:
+            out.append(T(cmp, T("ZeroExt", x, ints=(64,)), BVV(rng.getrandbits(W + 64), W + 64)))
+            out.append(T(cmp, T("Concat", BVV(0, 64), x), BVV(m, W + 64)))
+    for _ in range(n):
+        W = rng.choice(widths)
+        out.append(rand_term(rng, W, rng.randint(2, 5), want_bool=rng.random() < 0.3))
+    return out
